@@ -413,6 +413,11 @@ def thread_shard(w, acc, policy: str, ops, bound: int, coarse: t.Any, part: int,
     from mc import threads
 
     probes = [op for op in OPS if op[0] != "load" and (op[1] == (ops[0][1] if len(ops[0]) > 1 else ops[1][1]) or op[0] == "prot")]
+    if bound >= 2 or coarse is False:
+        # the expensive explorations (every source line; two preemptions) are followed by four probes: the operations themselves, the
+        # first and the last of the list - the function-entry explorations by all of them
+        keep = [o for o in ops if o[0] != "load"] + probes[:1] + probes[-1:]
+        probes = [p_ for i_, p_ in enumerate(keep) if p_ not in keep[:i_]]
     # granularity: False = every dpapi_ng source line, True = function entries, "client" = every line of _client.py only (where the cache
     # and the four entry points live) - the last one keeps a preemption bound of 2 affordable
     only_files = {"_client.py"} if coarse == "client" else None
